@@ -251,8 +251,10 @@ def _sweep(out, project, res, src, label, stride=1, skip_definition=False):
             maxfixes = 1 if off % 2 else 3
             later = bool((off // 2) % 2)
             out.evals += 1
+            repaired = False
             try:
                 props = codeassist.code_assist(project, code, off, res, maxfixes=maxfixes, later_locals=later)
+                repaired = True
                 so = codeassist.starting_offset(code, off)
                 pre = code[so:off]
                 bad = [p.name for p in props if not p.name.startswith(pre)]
@@ -270,6 +272,24 @@ def _sweep(out, project, res, src, label, stride=1, skip_definition=False):
                     "offset %d (%s, maxfixes=%d): %r near %r" % (off, variant, maxfixes, e, code[max(0, off - 30): off + 10]),
                     {"off": off, "variant": variant},
                 )
+            if variant == "trunc" and repaired and not skip_definition and not srcgen.compiles(code):
+                # both entry points repair the text with the same fixer and the same maxfixes: where completion could repair
+                # the incomplete line, go-to-definition cannot call the module unrepairable
+                out.evals += 1
+                try:
+                    codeassist.get_definition_location(project, code, off, res, maxfixes=maxfixes)
+                except rex.ModuleSyntaxError as e:
+                    out.violation(
+                        "C20:definition_lookup_gives_up_where_completion_repaired:%s" % label,
+                        "offset %d (maxfixes=%d): %r near %r" % (off, maxfixes, e, code[max(0, off - 40): off + 20]),
+                        {"off": off, "variant": variant},
+                    )
+                except rex.RopeError:
+                    out.refused += 1
+                except RecursionError:
+                    out.notes["recursion"] += 1
+                except Exception as e:
+                    out.violation("C20:get_definition_location_raised:%s:%s" % (type(e).__name__, label), "offset %d (trunc): %r near %r" % (off, e, code[max(0, off - 30): off + 10]), {"off": off})
             if variant == "whole" and not skip_definition:
                 for fname, fn in (("get_definition_location", lambda: codeassist.get_definition_location(project, code, off, res, maxfixes=maxfixes)),
                                   ("find_definition", lambda: findit.find_definition(project, code, off, res, maxfixes=maxfixes))):
